@@ -14,13 +14,13 @@ nres=$(echo "$out" | grep -c "^test result: ok")
 echo "step1 existing-suite-with-change: ok_binaries=$nres other_failures=[${failed}]"
 if [ -f tests/seeded_demo.rs ]; then
   cargo test --offline --test seeded_demo >/dev/null 2>&1; echo "step2 demo-with-change exit=$? (must be non-zero)"
-  git stash push -q -- src
+  git apply -R patch.diff
   cargo test --offline --test seeded_demo >/dev/null 2>&1; echo "step3 demo-without-change exit=$? (must be 0)"
-  git stash pop -q
+  git apply patch.diff
 elif [ -f demo.sh ]; then
   bash demo.sh >/dev/null 2>&1; echo "step2 demo-with-change exit=$? (must be non-zero)"
-  git stash push -q -- src
+  git apply -R patch.diff
   bash demo.sh >/dev/null 2>&1; echo "step3 demo-without-change exit=$? (must be 0)"
-  git stash pop -q
+  git apply patch.diff
 fi
 git diff --stat -- src | tail -1
